@@ -796,14 +796,16 @@ def monitor_step(ctx: fw.Ctx, case: dict, obs: dict, stub: bool) -> None:
             lost = a is None or (rec_finished(m) and not rec_finished(a)) or ((a.get('retries') or 0) < (m.get('retries') or 0))
             if lost:
                 ctx.fail('the cycle stays open but a progress record of a selected handler (or of its sub-handler) was dropped or reset',
-                         {**data, 'lost': k, 'mixed_purposes': sorted({str((x or {}).get('purpose')) for x in before.values()})},
+                         {**data, 'lost': k, 'superseded_unselected': sorted(
+                             x for x in obs['owned'] if x not in obs['selected']
+                             and (before.get(x) or {}).get('purpose') not in (None, '', obs['reason']))},
                          observed={'before': m, 'after': a}, sig='record-lost-open-cycle')
     # store-only-changed: a record equal to what is on the object is not written again
     for k, a in zip(obs['universe'], obs['actions']):
         if isinstance(a, dict) and before.get(k) == a:
             ctx.fail('an unchanged progress record was written again', data, observed={k: a}, sig='rewrite-unchanged')
-    # children keep the parent open
-    for k in obs['selected']:
+    # children keep the parent open (only where the real execute_handler_once / subhandling.execute ran)
+    for k in ([] if stub else obs['selected']):
         a = obs['after'].get(k)
         if a is not None and a.get('success'):
             for s in a.get('subrefs') or []:
@@ -818,10 +820,7 @@ def match_f0201(f: dict) -> bool:
     State.store does not write back: unchanged ones and those of sub-handlers."""
     if f['sig'] != 'record-lost-open-cycle':
         return False
-    c = f['case']
-    purposes = set(c.get('mixed_purposes') or [])
-    reason = c['case']['reason']
-    return bool(purposes - {reason, 'None', ''}) and (f['observed'] or {}).get('after') is None
+    return bool(f['case'].get('superseded_unselected')) and (f['observed'] or {}).get('after') is None
 
 
 # --------------------------------------------------------------------------------------
